@@ -111,6 +111,11 @@ func (s *slicer) walk(v ssa.Value, idx int, ctx *sliceCtx, depth int) {
 		s.walk(x.X, 0, ctx, depth+1)
 	case *ssa.Slice:
 		s.walk(x.X, 0, ctx, depth+1)
+		for _, bnd := range []ssa.Value{x.Low, x.High, x.Max} {
+			if bnd != nil {
+				s.walk(bnd, 0, ctx, depth+1)
+			}
+		}
 	case *ssa.IndexAddr:
 		s.walk(x.X, 0, ctx, depth+1)
 		s.walk(x.Index, 0, ctx, depth+1)
